@@ -230,6 +230,8 @@ enum Role {
     Subject,
     /// same problem, other flavour (C11)
     OtherFlavour,
+    /// the parallel problem converted to its sequential form right after build, then driven like the subject (C11)
+    Converted,
     /// row-scaled model, pre-weighted data, no weights (C06)
     RowScaled,
     /// no weights at all (for unit weights, C06)
@@ -250,6 +252,7 @@ fn build_role<T: Sc>(env: &Env<T>, sc: &Scen, role: &Role, a: &[T]) -> Box<dyn P
     match role {
         Role::Subject => env.build(sc, a, sc.par),
         Role::OtherFlavour => env.build(sc, a, !sc.par),
+        Role::Converted => env.build(sc, a, sc.par).into_sequential(),
         Role::RowScaled => {
             let w = env.w.clone().unwrap();
             let mut ys = env.y.clone();
@@ -289,7 +292,12 @@ fn build_role<T: Sc>(env: &Env<T>, sc: &Scen, role: &Role, a: &[T]) -> Box<dyn P
 fn roles_for(sc: &Scen, prop: &str) -> Vec<Role> {
     let mut r = vec![Role::Subject];
     match prop {
-        "C11" => r.push(Role::OtherFlavour),
+        "C11" => {
+            r.push(Role::OtherFlavour);
+            if sc.par {
+                r.push(Role::Converted);
+            }
+        }
         "C01" | "C02" => {
             if !matches!(sc.w, WKind::None) {
                 r.push(Role::Reweighted);
@@ -624,12 +632,13 @@ impl<'a, T: Sc> Explorer<'a, T> {
         let ncol = self.sc.ycols.len();
         let prop = self.prop.to_string();
         match role {
-            Role::OtherFlavour | Role::Unweighted | Role::Reweighted => {
+            Role::OtherFlavour | Role::Converted | Role::Unweighted | Role::Reweighted => {
                 // identities of deterministic computations: bitwise
                 if s != t {
                     let what = if s.res != t.res { "residuals" } else if s.coef != t.coef { "coefficients" } else if s.jac != t.jac { "jacobian" } else { "params" };
                     let (p, sig) = match role {
                         Role::OtherFlavour => ("C11", "parallel-differs-from-sequential"),
+                        Role::Converted => ("C11", "converted-problem-differs"),
                         Role::Reweighted => (if prop == "C02" { "C02" } else if prop == "C01" { "C01" } else { "C06" }, "weights-applied-more-than-once"),
                         _ => ("C06", "unit-weights-differ-from-no-weights"),
                     };
@@ -1247,7 +1256,7 @@ fn scenarios(prop: &str, thorough: bool) -> Vec<Scen> {
             }
         }
         "C06" => {
-            let weights = [WKind::Ones, WKind::Threes, WKind::Dyadic, WKind::Ramp, WKind::InvSigma, WKind::Spread, WKind::ZeroAt(0), WKind::ZeroAt(3), WKind::NegAt(1), WKind::NegAt(4), WKind::Tiny, WKind::Huge];
+            let weights = [WKind::Ones, WKind::Threes, WKind::Dyadic, WKind::Ramp, WKind::InvSigma, WKind::Spread, WKind::ZeroAt(0), WKind::ZeroAt(3), WKind::NegAt(1), WKind::NegAt(4), WKind::Tiny, WKind::Huge, WKind::NegRamp, WKind::NegRampZeroAt(2)];
             for (fi, (fam, n)) in base_families().iter().enumerate() {
                 for prov in provs {
                     for f32_ in [false, true] {
